@@ -8,6 +8,7 @@ PY2 = python_version_tuple()[0] == "2"
 import re
 import codecs
 from functools import partial
+from unicodedata import normalize
 
 from ural.utils import quote
 
@@ -124,13 +125,36 @@ UNSAFE_FOR_QUERY_ITEM = b" %&=#+"
 UNSAFE_FOR_FRAGMENT = b" %"
 
 # NOTE: those method should only be used on parsed urls to canonicalize/normalize.
-safely_unquote_auth_item = partial(
+_safely_unquote_auth_item = partial(
     unquote,
     only_printable=True,
     normalize_space=True,
     unsafe=UNSAFE_FOR_AUTH_ITEM,
     lossless=True,
 )
+
+NON_ASCII_RE = re.compile("[^\x00-\x7f]")
+
+
+def _requote_delimiter_lookalike(match):
+    char = match.group(0)
+    normalized = normalize("NFKC", char)
+
+    if normalized != char and any(c in normalized for c in "/?#@:"):
+        return quote(char)
+
+    return char
+
+
+# NOTE: urlsplit refuses a netloc holding a character whose compatibility (NFKC)
+# form holds an url delimiter (U+FF20 is "@"): with such a character decoded, the
+# url could not be parsed again. Those stay escaped, as the delimiters themselves do.
+def safely_unquote_auth_item(string):
+    return NON_ASCII_RE.sub(
+        _requote_delimiter_lookalike, _safely_unquote_auth_item(string)
+    )
+
+
 safely_unquote_path = partial(
     unquote,
     only_printable=True,
